@@ -100,6 +100,27 @@ def c14_case(draw, max_tasks=7):
                         if l in spec['links']:
                             spec['links'].remove(l)
                 m = Model(spec)
+    # the links may have changed after the detours over outside tasks (member -> outside -> member) were chosen:
+    # drop a detour that now closes a circle of explicit links (the API refuses to build it)
+    for e in spec.get('ext', []):
+        if e.get('pred'):
+            adj2 = {}
+            for u, v in spec['links']:
+                adj2.setdefault(u, set()).add(v)
+            for e2 in spec['ext']:
+                if e2 is not e and e2.get('pred'):
+                    for a_ in e2['pred']:
+                        for b_ in e2['succ']:
+                            adj2.setdefault(a_, set()).add(b_)
+
+            def reach2(a, b, seen=None):
+                seen = seen or set()
+                if a == b:
+                    return True
+                seen.add(a)
+                return any(reach2(y, b, seen) for y in adj2.get(a, ()) if y not in seen)
+            if any(reach2(b_, a_) for a_ in e['pred'] for b_ in e['succ']):
+                e['pred'] = []
     used = sorted({str(t['resource']) for t in spec['tasks']})
     if flavour == 'tod-bounds' and used:
         anchor = (dt(c['P']) - BASE).days
